@@ -40,9 +40,12 @@ func init() {
 			{ID: "R02.3", Configs: "all", Run: ruleR02_3},
 			{ID: "R02.4", Configs: "asm", Run: ruleR18_1},
 			{ID: "R02.5", Configs: "all", Run: ruleR02_5},
+			{ID: "R02.6", Configs: "all", Run: ruleR02_6},
+			{ID: "R02.7", Configs: "all", Run: ruleR02_7},
+			{ID: "R02.8", Configs: "all", Run: ruleR02_8},
 		},
 		Explanation: "Does not decide decode equality. Decides that the constant data and layout assumptions both decode loops rely on are right: (R02.1, exhaustive) every one of the 4096 short entries of the precomputed fixed literal/length table, every long-table entry they point to, and every one of the 1024 fixed distance entries describes exactly the symbols the RFC 1951 fixed code assigns to those bits, in the entry format the decode loops define (1-3 packed symbols, all but the last literals, bit count = sum of code lengths plus folded extra bits, zero length exactly for the non-existent symbols 286/287 and 30/31); " +
-			"(R02.2) the RFC base/extra tables equal RFC 1951; (R02.3) the slack constants satisfy the relations the fast paths rely on; (R02.4) every struct offset hard-coded in the assembly lands on the intended field (= R18.1); (R02.5) in the dynamic-header parser every store of a code length is preceded, within the same loop iteration, by the test that switches from the literal/length lengths to the distance lengths at 257+HLIT, so a repeat run may cross that boundary as RFC 1951 allows.",
+			"(R02.2) the RFC base/extra tables equal RFC 1951; (R02.3) the slack constants satisfy the relations the fast paths rely on; (R02.4) every struct offset hard-coded in the assembly lands on the intended field (= R18.1); (R02.5) in the dynamic-header parser every store of a code length is preceded, within the same loop iteration, by the test that switches from the literal/length lengths to the distance lengths at 257+HLIT, so a repeat run may cross that boundary as RFC 1951 allows; (R02.6) a fixed block installs both precomputed tables whole (short and long parts); (R02.7) every builder of the literal/length table stores symbols through the index-to-symbol mapping (513 -> 512), like its siblings; (R02.8) the builtin copy is used inside one buffer only where a dominating comparison implies that source and destination do not overlap - otherwise the period-replicating byteCopy is required.",
 		NotDecided: []string{
 			"the table builders for dynamic codes and both decode loops (runtime arithmetic)",
 			"history wrap-around and carry-over logic",
@@ -1449,5 +1452,242 @@ func ruleR02_5(p *Program, r *Report) {
 	}
 	if n < 2 {
 		r.Undecided("R02.5", "readLitDistLens|stores", p.Pos(fn.Pos()), "at least two code-length store sites", "found "+itoa(n))
+	}
+}
+
+// R02.6: setupStaticHeader installs the two precomputed tables whole.
+func ruleR02_6(p *Program, r *Report) {
+	r.Expect("R02.6", 2)
+	fn := p.Method(flateRel, "inflate", "setupStaticHeader")
+	if fn == nil {
+		r.Undecided("R02.6", "anchor", "-", "inflate.setupStaticHeader exists", "not found")
+		return
+	}
+	want := map[string]string{".litLenTable": "staticLitHuffCode", ".distTable": "staticDistHuffCode"}
+	got := map[string]string{}
+	for _, b := range fn.Blocks {
+		for _, in := range b.Instrs {
+			if st, ok := in.(*ssa.Store); ok {
+				if root, sel := accessPath(st.Addr); root == ssa.Value(fn.Params[0]) {
+					if g := globalLoad(st.Val); g != nil {
+						got[sel] = g.Name()
+					}
+				}
+			}
+		}
+	}
+	for sel, g := range want {
+		r.Check(got[sel] == g, "R02.6", "setupStaticHeader|"+sel, p.Pos(fn.Pos()), "a fixed block installs the whole precomputed table "+g+" (short and long parts) in "+sel, "no whole-table store of "+g+" into "+sel+": entries that resolve through the long part would come from zeros or from the previous dynamic block")
+	}
+}
+
+// R02.7: siblings building the lit/len table map code-list indexes to symbols before storing them.
+func ruleR02_7(p *Program, r *Report) {
+	r.Expect("R02.7", 4)
+	n := p.Named(flateRel, "largeHuffCodeTable")
+	i2s := p.Func(flateRel, "indexToSym")
+	if n == nil || i2s == nil {
+		r.Undecided("R02.7", "anchors", "-", "largeHuffCodeTable and indexToSym exist", "not found")
+		return
+	}
+	for _, fn := range p.Funcs() {
+		if fn.Signature.Recv() == nil || derefNamed(fn.Signature.Recv().Type()) != n {
+			continue
+		}
+		recv := fn.Params[0]
+		lab := newLabeler()
+		for _, b := range fn.Blocks {
+			for _, in := range b.Instrs {
+				st, ok := in.(*ssa.Store)
+				if !ok {
+					continue
+				}
+				root, sel := accessPath(st.Addr)
+				if root != ssa.Value(recv) || !strings.HasSuffix(sel, "CodeLookup[*]") || isZeroConst(st.Val) {
+					continue
+				}
+				// the stored entry must carry a symbol: entries that only point into the long table (flag bit set) are exempt
+				mapped, hasSym := false, false
+				seen := map[ssa.Value]bool{}
+				var walk func(v ssa.Value)
+				walk = func(v ssa.Value) {
+					if v == nil || seen[v] {
+						return
+					}
+					seen[v] = true
+					switch x := v.(type) {
+					case *ssa.Call:
+						if x.Common().StaticCallee() == i2s {
+							mapped = true
+							hasSym = true
+						}
+						return
+					case *ssa.Phi:
+						for _, e := range x.Edges {
+							if k, isK := constInt(e); isK && k == 512 {
+								mapped = true
+							}
+							walk(e)
+						}
+					case *ssa.UnOp:
+						// a load from the code list: a raw index
+						if _, s2 := accessPath(x.X); strings.HasSuffix(s2, ".codeList[*]") || strings.HasSuffix(s2, "[*]") && strings.Contains(x.X.String(), "tempCodeList") {
+							hasSym = true
+						}
+						if al, ok := x.X.(*ssa.IndexAddr); ok {
+							if _, isAlloc := al.X.(*ssa.Alloc); isAlloc {
+								hasSym = true
+							}
+						}
+						return
+					case ssa.Instruction:
+						for _, op := range x.Operands(nil) {
+							if *op != nil {
+								walk(*op)
+							}
+						}
+					}
+				}
+				walk(st.Val)
+				if !hasSym {
+					continue
+				}
+				r.Check(mapped, "R02.7", shortFn(fn)+"|"+lab.get("entry store"), p.InstrPos(st), "a table entry built from a code-list index stores indexToSym(index), as the sibling builders do", "the raw code-list index is stored: index 513 stands for symbol 512 (match length 258), so that length is decoded wrongly")
+			}
+		}
+	}
+}
+
+// R02.8: builtin copy inside one buffer only under a comparison that implies non-overlap.
+func ruleR02_8(p *Program, r *Report) {
+	r.Expect("R02.8", 2)
+	sp := p.Pkg(flateRel)
+	n := 0
+	for _, fn := range p.Funcs() {
+		if fn.Pkg != sp || fn.Name() == "byteCopy" {
+			continue
+		}
+		lab := newLabeler()
+		for _, c := range allCalls(fn) {
+			bi, ok := c.Common().Value.(*ssa.Builtin)
+			if !ok || bi.Name() != "copy" {
+				continue
+			}
+			dst, ok1 := c.Common().Args[0].(*ssa.Slice)
+			src, ok2 := c.Common().Args[1].(*ssa.Slice)
+			if !ok1 || !ok2 {
+				continue
+			}
+			rd, sd := accessPath(dst.X)
+			rs, ss := accessPath(src.X)
+			if rd != rs || sd != ss {
+				continue
+			}
+			// staging of the same array through different fields does not count; only the same buffer
+			n++
+			key := shortFn(fn) + "|" + lab.get("copy within "+sd)
+			lin := func(v ssa.Value, dflt int64, has bool) (linForm, bool) {
+				if v == nil {
+					if !has {
+						return linForm{}, false
+					}
+					return linForm{terms: map[string]int64{}, k: dflt, ok: true}, true
+				}
+				l := linearize(v)
+				return l, l.ok
+			}
+			dLow, okDL := lin(dst.Low, 0, true)
+			dHigh, okDH := lin(dst.High, 0, false)
+			sLow, okSL := lin(src.Low, 0, true)
+			sHigh, okSH := lin(src.High, 0, false)
+			sub := func(a, b linForm) linForm {
+				o := linForm{terms: map[string]int64{}, k: a.k - b.k, ok: true}
+				for k, v := range a.terms {
+					o.terms[k] += v
+				}
+				for k, v := range b.terms {
+					o.terms[k] -= v
+				}
+				return o
+			}
+			same := func(a, b linForm) bool {
+				if a.k != b.k {
+					return false
+				}
+				for k, v := range a.terms {
+					if b.terms[k] != v {
+						return false
+					}
+				}
+				for k, v := range b.terms {
+					if a.terms[k] != v {
+						return false
+					}
+				}
+				return true
+			}
+			// candidates: dst.Low - src.High >= 0   or   src.Low - dst.High >= 0
+			var wants []linForm
+			if okDL && okSH {
+				wants = append(wants, sub(dLow, sHigh))
+			}
+			if okSL && okDH {
+				wants = append(wants, sub(sLow, dHigh))
+			}
+			good := false
+			for _, w := range wants {
+				// disjoint by construction: the difference is a non-negative constant (dst starts where src ends)
+				zero := true
+				for _, v := range w.terms {
+					if v != 0 {
+						zero = false
+					}
+				}
+				if zero && w.k >= 0 {
+					good = true
+				}
+			}
+			for _, f := range dominatingFacts(c) {
+				if f.Y == nil {
+					continue
+				}
+				a, b := linearize(f.X), linearize(f.Y)
+				if !a.ok || !b.ok {
+					continue
+				}
+				var d linForm
+				switch f.Op {
+				case token.GEQ:
+					d = sub(a, b)
+				case token.LEQ:
+					d = sub(b, a)
+				case token.GTR:
+					d = sub(a, b)
+					d.k-- // a > b  =>  a - b - 1 >= 0
+				case token.LSS:
+					d = sub(b, a)
+					d.k--
+				default:
+					continue
+				}
+				for _, w := range wants {
+					if same(d, w) {
+						good = true
+					}
+					// a stronger fact (d = w + positive constant) also implies it
+					d2 := d
+					if d2.k > w.k {
+						d2.k = w.k
+						if same(d2, w) {
+							good = true
+						}
+					}
+				}
+			}
+			r.Check(good, "R02.8", key, p.InstrPos(c), "builtin copy between two ranges of the same buffer is guarded by a comparison that makes them disjoint", "no dominating comparison implies that source and destination are disjoint: copy() does not replicate the period of an overlapping match (byteCopy does)")
+		}
+	}
+	if n < 2 {
+		r.Undecided("R02.8", "sites", "-", "at least two same-buffer copies (match copy, window slide)", "found "+itoa(n))
 	}
 }
